@@ -1,4 +1,4 @@
 From Coq Require Import ZArith List Extraction ExtrOcamlBasic.
-From N2kV Require Import Base.Res Model.ActisenseDefs.
+From N2kV Require Import Base.Res Model.ActisenseDefs Model.ForwardDefs.
 Extraction Language OCaml.
-Extraction "Extract/model_C17.ml" encode init run run_ro Z.add Z.sub Z.mul Z.div Z.modulo Z.opp.
+Extraction "Extract/model_C17.ml" encode init run run_ro forward_decision forwarded_bytes Z.add Z.sub Z.mul Z.div Z.modulo Z.opp.
